@@ -153,6 +153,8 @@ fixed("D28", ["C13", "C14"], "find all @/(a)\\1/ find all @/(b)\\1/ did not comp
       spans("find all @/(a)\\1/ find all @/(b)\\1/", "aa bb", [(0, 2, None), (3, 5, None)]))
 fixed("D28b", ["C14"], "two literals in one command: @/(a)/ ' ' @/(b)\\1/ matched 'a ba'", "numeric back-reference in a second regexp literal",
       spans("find all @/(a)/ ' ' @/(b)\\1/", "a bb a ba", [(0, 4, None)]))
+fixed("D29", ["C15"], "replace top 3with 'x' (a replace command without a pattern) was accepted, the same tokens with a blank or a comment before `with` were rejected; a round-12 seeding sub-agent noticed it while reading parse_replace, confirmed by the C15 gap enumeration once it wrote a number and a following word without a blank", "replace command without a pattern",
+      {"kind": "layout", "case": {"orig": "replace top 3 with 'x'", "variant": "replace top 3with 'x'", "texts": ["ab"]}})
 known("K1", ["C09", "C11"], "division / modulo by zero in process code panics (no documented result; needs a language decision)",
       "integer divide by zero", crash("set f to transform return 1 / 0 end replace all 'a' with f", "a"))
 known("K2", ["C09", "C12"], "a variable that is boolean on one branch and a number on the other reaches SHOULDN'T GET HERE (the checker keeps the last assigned type)",
